@@ -36,7 +36,7 @@ LEVEL = {  # evidence level per property (must agree with MANIFEST.json)
     'C12': 'exploration', 'C13': 'exploration', 'C14': 'exploration', 'C15': 'exploration', 'C16': 'exploration',
     'C17': 'fault_enumeration', 'C18': 'exploration',
 }
-CONTRACT_MODULES = ['streams', 'sync', 'writers']
+CONTRACT_MODULES = ['streams', 'sync', 'writers', 'cwrite']
 STANDING_ASSUMPTIONS = [
     'pyvc encodes a subset of Python: unbounded mathematical integers, bytes/str as z3 sequences, attribute dictionaries, '
     'no threads, no signals; anything outside the subset makes the unit undecided (never a pass)',
